@@ -32,14 +32,18 @@ WT_TRUST = [
 
 # The end-to-end rig (`sv-e2e` / monitor `e2e`): real agent + real runtime + remotes; monitor only.
 E2E_REASONS = {
-    "C01": r"value-event-stale-or-reordered|value-stale-at-quiescence|value-event-on-map-lane",
-    "C02": r"map-replica-diverged|map-event-on-other-lane|map-take-drop-wrong-keys",
+    # http-*: a value-lane change made by a handler of the agent's HTTP lane (the agent's own handlers, C01) is logged by
+    # `on_event` on the line of the request; `http get` answers with the value the lane held when the handler ran
+    "C01": r"value-event-stale-or-reordered|value-stale-at-quiescence|value-event-on-map-lane|"
+           r"http-handler-change-not-applied|http-get-stale|http-dropped-response-change-lost",
+    "C02": r"map-replica-diverged|map-event-on-other-lane|map-take-drop-wrong-keys|"
+           r"map-http-handler-change-not-applied|map-http-dropped-response-change-lost",
     "C03": r"map-snapshot-inconsistent|value-snapshot-inconsistent|value-synced-without-value|"
            r"sync-request-never-answered|synced-not-requested|map-update-lost-during-implicit-link-sync|"
            r"event-outside-link|synced-outside-link|linked-remote-never-told-linked",
     "C04": r"event-outside-link|unlinked-without-open-link|lane-not-found.*|linked-for-unknown-lane|"
            r"link-left-open-at-stop|fabricated-event-body|synced-outside-link|linked-remote-never-told-linked|"
-           r"unexpected-frame-body|frame-decode-error|run-.*|unparsable.*",
+           r"unexpected-frame-body|frame-decode-error|run-.*|unparsable.*|http-response-unexpected",
     "C14": r"supply-.*|command-.*",
 }
 
